@@ -1,6 +1,7 @@
 """C15 - fixing a design variable restricts the design space exactly; freeing restores it (DESIGN.md 6/C15)"""
 import numpy as np
 from hypothesis import strategies as st
+from ..strat import ints
 from .. import specs, build, proc
 from ..core import Result, viol, exc_sig
 from ..observe import observe, decode_one, dv_meta, all_vectors, lcg_vectors
@@ -21,10 +22,10 @@ BUDGET = {'quick': 100, 'thorough': 2000}
 def _case(draw, tier):
     spec = draw(specs.full_spec(max_nodes=8 if tier == 'quick' else 10, p_conn=0.2, p_dv=0.5, p_con=0.1,
                                 small_conn=True))
-    ops = draw(st.lists(st.tuples(st.sampled_from(['fix', 'fix', 'fix', 'free', 'fix_bad']), st.integers(0, 50),
-                                  st.integers(0, 50)), min_size=1, max_size=4))
+    ops = draw(st.lists(st.tuples(st.sampled_from(['fix', 'fix', 'fix', 'free', 'fix_bad']), ints(0, 50),
+                                  ints(0, 50)), min_size=1, max_size=4))
     return {'spec': spec, 'enc': draw(st.sampled_from(['COMPLETE', 'COMPLETE', 'FAST'])), 'ops': [list(o) for o in ops],
-            'vseed': draw(st.integers(0, 9999))}
+            'vseed': draw(ints(0, 9999))}
 
 
 def strategy(tier):
